@@ -112,6 +112,22 @@ def all_exhaustive():
             if L <= 3:
                 yield "exh", prog([v, b"\x04"], [128, 129])  # NUM2BIN(4) then BIN2NUM
                 yield "exh", prog([b"\x01", v], [147])  # ADD with a non-minimal operand
+    # truthiness of LONG elements (64..81 bytes): all zero, negative zero, and exactly one non-zero byte at every position
+    for L in (64, 65, 66, 70, 72, 73, 80, 81):
+        shapes = [bytes(L), bytes(L - 1) + b"\x80"]
+        for pos_ in range(L):
+            v_ = bytearray(L)
+            v_[pos_] = 0x01 if pos_ < L - 1 else 0x81
+            shapes.append(bytes(v_))
+            if pos_ == L - 2:
+                v2 = bytearray(L)
+                v2[pos_] = 0x40
+                v2[L - 1] = 0x80
+                shapes.append(bytes(v2))
+        for v_ in shapes:
+            yield "exh", prog([v_], [99, 81, 103, 82, 104])
+            yield "exh", prog([b"\x01", v_], [154])  # BOOLAND
+            yield "exh", prog([v_], [105])  # VERIFY
     # conditionals: predicate x IF/NOTIF x else/no else, nested, empty branches
     for p in V15 + [b"\x00\x00", b"\x00\x80", b"\x00\x00\x00\x00\x00", b"\x01\x00\x00\x00\x00"]:
         for op in (99, 100):
